@@ -14,14 +14,24 @@ package otlploggrpc
 
 // first RetryInfo detail of the status, if any (protobuf Any decoding is external)
 // "carries retry info" means: a RetryInfo detail is PRESENT (whatever delay it asks for, zero included); without one: (false, 0)
+//@ ghost var riSeen int
 //@ func throttleDelay(s *status.Status) (ok bool, d time.Duration)
 //@   pure
 //@   unchecked frame,no-panic walks protobuf status details (external library types); used by callers as a deterministic function of the status
 //@   assert@return#1 : $ret0
 //@   assert@return#2 : !$ret0 && $ret1 == 0
+// the first RetryInfo detail ends the search, whatever delay it carries (zero included): once its delay has been read
+// (ghost riSeen) the function returns with ok - it never goes on to report "no retry info"
+//@   modifies ghost riSeen
+//@   ghost@entry : riSeen = 0
+//@   ghost@call Duration.AsDuration#* : riSeen = 1
+//@   assert@return#1 : riSeen == 1
+//@   assert@return#2 : riSeen == 0
+//@   loop#1 invariant riSeen == 0
 
 // Exactly the documented retryable codes are retried; ResourceExhausted only when the server sent RetryInfo.
 //@ func retryableGRPCStatus(s *status.Status) (ok bool, d time.Duration)
+//@   modifies ghost riSeen
 //@   ensures (s.Code() == codes.Canceled || s.Code() == codes.DeadlineExceeded || s.Code() == codes.Aborted || s.Code() == codes.OutOfRange || s.Code() == codes.Unavailable || s.Code() == codes.DataLoss) ==> ok && d == snd(throttleDelay(s))
 //@   ensures s.Code() == codes.ResourceExhausted ==> ok == fst(throttleDelay(s)) && d == snd(throttleDelay(s))
 //@   ensures !(s.Code() == codes.Canceled || s.Code() == codes.DeadlineExceeded || s.Code() == codes.Aborted || s.Code() == codes.OutOfRange || s.Code() == codes.Unavailable || s.Code() == codes.DataLoss || s.Code() == codes.ResourceExhausted) ==> !ok && d == 0
@@ -50,3 +60,27 @@ package otlploggrpc
 //@   ensures !s.Set ==> r.Set && r.Value == val
 //@   ensures s.Set ==> r == s
 //@   modifies
+
+// ======================================================================== C20 programmatic options of the log exporter
+// an option, once applied, leaves ITS setting set to exactly the value passed - whatever that value is (an empty header map, a zero
+// timeout and an empty string are values too: the environment must not take over) - and touches no other setting
+//@ func WithEndpoint$1(c config) (r config)
+//@   prop C20
+//@   overflow assumed
+//@   ensures r.endpoint.Set && r.endpoint.Value == endpoint
+//@   ensures r.insecure == c.insecure && r.compression == c.compression && r.timeout == c.timeout && r.headers == c.headers
+//@ func WithInsecure$1(c config) (r config)
+//@   prop C20
+//@   overflow assumed
+//@   ensures r.insecure.Set && r.insecure.Value == true
+//@   ensures r.endpoint == c.endpoint && r.compression == c.compression && r.timeout == c.timeout && r.headers == c.headers
+//@ func WithHeaders$1(c config) (r config)
+//@   prop C20
+//@   overflow assumed
+//@   ensures r.headers.Set && r.headers.Value == headers
+//@   ensures r.endpoint == c.endpoint && r.insecure == c.insecure && r.compression == c.compression && r.timeout == c.timeout
+//@ func WithTimeout$1(c config) (r config)
+//@   prop C20
+//@   overflow assumed
+//@   ensures r.timeout.Set && r.timeout.Value == duration
+//@   ensures r.endpoint == c.endpoint && r.insecure == c.insecure && r.compression == c.compression && r.headers == c.headers
